@@ -385,8 +385,15 @@ def rule_euclidean(ctx, m):
             if any(x[0] == 'idx' and x[1][0] == 'cond' for st_ in walk_stmts(f.body) for e_ in stmt_exprs(st_) for x in walk_expr(e_)):
                 extra = set(extra) | {'<series selected by a conditional expression>'}
             if extra:
-                ctx.undecided('R-PATH', '%s padding with the last element' % nm, 'restructured around new locals %s: not summarised' % sorted(extra))
-                continue
+                # decide the restructured body case by case: with l1 > l2, l1 < l2 or l1 == l2 fixed, every test on the lengths folds, the
+                # `shorter` / `longer` selections become plain aliases of the parameters and the normal form removes them; the summary of each
+                # specialised body is then compared with what the case asks for.  No verdict when a pointer local survives in some case.
+                verdict = _euclid_by_cases(nm, f, pn, nd, eq, term)
+                if verdict[0] == 'undecided':
+                    ctx.undecided('R-PATH', '%s padding with the last element' % nm, 'restructured around new locals %s: %s' % (sorted(extra), verdict[1]))
+                    continue
+                ok_prefix = ok_pad = verdict[0] == 'ok'
+                detail = verdict[1]
         ctx.check(ok_prefix and ok_pad, 'R-PATH', f.file, nm, 'padding with the last element',
                   'the common prefix [0, min(l1, l2)) pairs element k with element k and the surplus elements of the longer series must be compared with element n-1 '
                   '(n = min(l1, l2)) of the shorter one (prefix ok=%s, padding ok=%s) %s' % (ok_prefix, ok_pad, detail), f.line)
@@ -447,6 +454,160 @@ def _single_defs(f):
                 if t[0] == 'var':
                     defs.setdefault(t[1], []).append(('idx', s.value, ('num', i_)) if s.value[0] != 'tuple' else s.value[1][i_])
     return {k_: v_[0] for k_, v_ in defs.items() if len(v_) == 1}
+
+
+
+def _fold_lengths(body, truth):
+    """body with every `if` / conditional expression whose test `truth(cond)` decides (True / False) replaced by the arm taken"""
+    from ..ir import S
+
+    def fe(e):
+        if not isinstance(e, tuple) or not e:
+            return e
+        if e[0] == 'cond':
+            t = truth(e[1])
+            if t is True:
+                return fe(e[2])
+            if t is False:
+                return fe(e[3])
+        return tuple(fe(x) if isinstance(x, tuple) else x for x in e)
+
+    def fs(stmts):
+        out = []
+        for st in stmts:
+            if st.k == 'if':
+                t = truth(st.cond)
+                if t is True:
+                    out.extend(fs(st.then))
+                    continue
+                if t is False:
+                    out.extend(fs(st.els or []))
+                    continue
+            d = {}
+            for k_, v_ in st.d.items():
+                if k_ in ('body', 'then', 'els', 'init', 'inc') and isinstance(v_, list):
+                    d[k_] = fs(v_)
+                elif isinstance(v_, tuple) and v_ and isinstance(v_[0], str):
+                    d[k_] = fe(v_)
+                else:
+                    d[k_] = v_
+            out.append(S(st.k, st.line, **d))
+        return out
+    return fs(body)
+
+
+def _euclid_by_cases(nm, f, pn, nd, eq, term0):
+    """-> ('ok' | 'bad' | 'undecided', detail).  See the call site in rule_euclidean."""
+    from .. import alpha
+    from ..canon import split_cond_assigns
+    L1, L2 = V('L1'), V('L2')
+    s1n, l1n, s2n, l2n = pn[0], pn[1], pn[2], pn[3]
+    def length_terms(body):
+        """lterm(e) for `body`: expressions over the lengths and the scalars defined exactly once from them (n = MIN(l1, l2), lmax = MAX(l1, l2), ..)"""
+        defs, cnt = {}, {}
+        for st in walk_stmts(body):
+            v = st.name if st.k == 'decl' else (st.target[1] if st.k == 'assign' and st.target[0] == 'var' else None)
+            val = (st.init if st.k == 'decl' else st.value) if v is not None else None
+            if val is not None:
+                cnt[v] = cnt.get(v, 0) + 1
+                defs[v] = val
+            if st.k == 'for':
+                cnt[st.var] = cnt.get(st.var, 0) + 2
+
+        def lterm(e):
+            def atom(x):
+                if x == ('var', l1n):
+                    return 'L1'
+                if x == ('var', l2n):
+                    return 'L2'
+                if x[0] == 'var' and cnt.get(x[1]) == 1 and x[1] in defs and x[1] not in pn:
+                    t = lterm(defs[x[1]])
+                    if set(sym.atoms(t)) <= {'L1', 'L2'}:
+                        return t
+                raise sym.Unsupported('not a length')
+            return sym.from_ir(norm_minmax(e), atom=atom)
+        return lterm
+
+    cases = {'l1 > l2': [sub(sub(L1, L2), C(1))], 'l1 < l2': [sub(sub(L2, L1), C(1))], 'l1 == l2': [sub(L1, L2), sub(L2, L1)]}
+    msgs = []
+    for cname, cdom in cases.items():
+        def truth(c, cdom=cdom):
+            lterm = LT[0]
+            neg = False
+            while c[0] == 'un' and c[1] == 'not':
+                c, neg = c[2], not neg
+            if not (c[0] == 'bin' and c[1] in ('<', '<=', '>', '>=', '==', '!=')):
+                return None
+            try:
+                t = sym.ite((c[1], lterm(c[2]), lterm(c[3])), C(1), C(0))
+            except sym.Unsupported:
+                return None
+            if eq(t, C(1), cdom):
+                return not neg
+            if eq(t, C(0), cdom):
+                return neg
+            return None
+        body = f.body
+        LT = [None]
+        for _round in range(4):        # folding one test can leave a scalar with a single definition, which lets the next test fold
+            LT[0] = length_terms(body)
+            nb = _fold_lengths(body, truth)
+            same = len(list(walk_stmts(nb))) == len(list(walk_stmts(body)))
+            body = nb
+            if same:
+                break
+        try:
+            body = alpha.absorb_new_locals(os.path.basename(f.file), nm, pn, split_cond_assigns(body))
+        except Exception as exn:       # noqa
+            return 'undecided', 'case %s: normal form failed (%s)' % (cname, exn)
+        # a pointer local that still stands between the parameters and the reads makes the summary unfaithful
+        read_vars = {x[1] for st in walk_stmts(body) for k_, e_ in enumerate(stmt_exprs(st)) for x in walk_expr(e_)
+                     if x[0] == 'var' and not (st.k == 'assign' and k_ == 0 and e_ == st.target)}
+        for st in walk_stmts(body):
+            val = st.init if st.k == 'decl' else (st.value if st.k == 'assign' and st.target[0] == 'var' else None)
+            if val is None or (st.name if st.k == 'decl' else st.target[1]) not in read_vars:
+                continue
+            w = val
+            while w[0] == 'cast':
+                w = w[-1]
+            if w in (('var', s1n), ('var', s2n)) or (w[0] == 'un' and w[1] == 'addr') or (w[0] == 'cond' and any(x in (('var', s1n), ('var', s2n)) for x in walk_expr(w))) \
+                    or (w[0] == 'bin' and w[1] in ('+', '-') and any(x in (('var', s1n), ('var', s2n)) for x in (w[2], w[3]))):
+                return 'undecided', 'case %s: the pointer local `%s` survives the normal form' % (cname, st.name if st.k == 'decl' else fmt(st.target))
+        if any(x[0] == 'idx' and x[1][0] == 'cond' for st_ in walk_stmts(body) for e_ in stmt_exprs(st_) for x in walk_expr(e_)):
+            return 'undecided', 'case %s: a series is still selected by a conditional expression' % cname
+        try:
+            loops, rets, term = _sum_loops(nm, body, 'c', s1n, s2n, ('var', l1n), ('var', l2n))
+        except AnalysisError as exn:
+            return 'undecided', 'case %s: %s' % (cname, exn)
+        kt = V('k')
+        n_pre = n_pad = 0
+        for (path, lo, hi, r1, r2, st) in loops:
+            if any(True for _ in kern._conj(path)):
+                return 'undecided', 'case %s: the loop at line %s stays under a condition that does not fold' % (cname, st.line)
+            if eq(tmax(sub(hi, lo), C(0)), C(0), cdom):
+                continue                # empty in this case
+            if not r1 and not r2:
+                continue                # not an accumulating loop over the series
+            shown = 'loop at line %s over [%s, %s) reads s1[%s] s2[%s]' % (st.line, sym.show(lo), sym.show(hi), ', '.join(sorted(map(fmt, r1))), ', '.join(sorted(map(fmt, r2))))
+            if eq(lo, C(0), cdom) and eq(hi, tmin(L1, L2), cdom):
+                n_pre += 1
+                if not (_reads_are(r1, kt, nd, eq, cdom, term) and _reads_are(r2, kt, nd, eq, cdom, term)):
+                    msgs.append('%s: prefix %s' % (cname, shown))
+            elif cname == 'l1 > l2' and eq(lo, L2, cdom) and eq(hi, L1, cdom):
+                n_pad += 1
+                if not (_reads_are(r1, kt, nd, eq, cdom, term) and _reads_are(r2, sub(L2, C(1)), nd, eq, cdom, term)):
+                    msgs.append('%s: surplus %s, wanted s1[k] against s2[l2-1]' % (cname, shown))
+            elif cname == 'l1 < l2' and eq(lo, L1, cdom) and eq(hi, L2, cdom):
+                n_pad += 1
+                if not (_reads_are(r2, kt, nd, eq, cdom, term) and _reads_are(r1, sub(L1, C(1)), nd, eq, cdom, term)):
+                    msgs.append('%s: surplus %s, wanted s2[k] against s1[l1-1]' % (cname, shown))
+            else:
+                msgs.append('%s: unexpected %s' % (cname, shown))
+        if n_pre != 1:
+            msgs.append('%s: %d prefix loops over [0, min(l1, l2))' % (cname, n_pre))
+        if n_pad != (0 if cname == 'l1 == l2' else 1):
+            msgs.append('%s: %d surplus loops' % (cname, n_pad))
+    return ('bad', 'decided per case of the length comparison -- ' + '; '.join(msgs)) if msgs else ('ok', '')
 
 
 def _reads_are(reads, want_item, nd, eq, dom, term=None, ndim='ndim'):
